@@ -194,6 +194,21 @@ def r_c08_compressed_returns_to_earlier_block(s4, repo, scratch):
             'observed': 'identical' if got == want else '%d lines (%d bytes)' % (got.count(b'\n'), len(got)), 'failed': got != want}
 
 
+def r_c11_years_across_two_new_years(s4, repo, scratch):
+    """a year-less log that spans two new years: the last message gets the year of the modification time, the year steps back at each wrap"""
+    inp = os.path.join(scratch, 'c11_years.log')
+    rows = [('Nov 30 10:00:00', 2022), ('Dec 31 23:59:58', 2022), ('Jan  1 00:00:01', 2023), ('Jun 15 12:00:00', 2023),
+            ('Dec 31 23:00:00', 2023), ('Jan  1 00:30:00', 2024), ('Jan  2 08:00:00', 2024)]
+    open(inp, 'w').write(''.join('%s hostA app[1]: message %d\n' % (t, i + 1) for i, (t, y) in enumerate(rows)))
+    mt = 1704196800  # 2024-01-02 12:00:00 UTC
+    os.utime(inp, (mt, mt))
+    rc, out, err = run_s4(s4, ['--color', 'never', '-t', '+00:00', '-u', '-d', '%Y', inp])
+    got = [l[:4].decode('ascii', 'replace') for l in out.split(b'\n') if l.strip()]
+    want = [str(y) for t, y in rows]
+    return {'name': 'C11.years_across_two_new_years', 'input': inp, 'how_made': 'seven syslog lines without a year, Nov 30 .. Jan 2 over two new years; file mtime 2024-01-02 12:00 UTC',
+            'cmd': "%s --color never -t +00:00 -u -d %%Y %s" % (s4, inp), 'expected': ' '.join(want), 'observed': ' '.join(got), 'failed': got != want}
+
+
 def r_c03_evtx_window(s4, repo, scratch):
     """an event log stored out of order: every record with creation time <= B is printed under --dt-before B"""
     f = os.path.join(repo, 'logs/programs/evtx/Microsoft-Windows-Kernel-PnP%4Configuration.evtx')
@@ -540,6 +555,7 @@ RECIPES = {
     'C06': [r_c01_tie_order, r_c01_chronological, r_c01_submillisecond],
     'C13': [r_c13_field_order_fixedstruct, r_c13_align_widest_printed, r_c13_evtx_prepend_file_only, r_c13_prependdate_lines_in_parts],
     'C03': [r_c03_journal_before_inclusive, r_c03_evtx_window, r_c03_yearless_tie_at_after],
+    'C11': [r_c11_years_across_two_new_years, r_c01_yearless_rollover_at_first_message],
     'C08': [r_c08_equal_times, r_c08_order, r_c08_smallest_layout_single_record, r_c08_compressed_returns_to_earlier_block],
 }
 
